@@ -339,6 +339,101 @@ example : (Pipe.run (Pipe.init 2) [.query, .query, .query, .query]).running = 2 
     (Pipe.run (Pipe.init 2) [.query, .query, .query, .query, .done]).queued = 0 ∧
     (Pipe.run (Pipe.init 2) [.query, .query, .query, .timeout, .query, .done]).running = 1 := by decide
 
+/-! ## The configured limits are the limits of the theorems (round 4: production wiring) -/
+
+/-- **wired_limiter.**  Whatever `ratelimit.connection_limit` section start-up validation lets
+through with `enabled: true` (thresholds are `uint64`s, `addrs` bound stream addresses), the
+conversion does not panic and the limiter handed to `dnssvc` is the initial counter of the theorems
+above with *the configured* `stop` and `resume`; these satisfy `WF`, and `resume` leaves room for one
+pending accept per listener. -/
+theorem wired_limiter (c : ConnLimitYaml) (addrs : Nat) (he : c.enabled = true)
+    (hv : ConnLimitYaml.validate (some c) addrs = true) (h64 : c.stop < two64) :
+    ConnLimitYaml.wire (some c) addrs = .on (init c.stop c.resume).c ∧
+    WF c.stop c.resume ∧ 0 < c.resume ∧ addrs ≤ c.resume := by
+  unfold ConnLimitYaml.validate at hv
+  simp only [he, Bool.not_true, Bool.false_eq_true, if_false] at hv
+  by_cases h0 : c.stop = 0
+  · simp [h0] at hv
+  by_cases h1 : c.resume = 0
+  · simp [h0, h1] at hv
+  by_cases h2 : c.resume > c.stop
+  · simp [h0, h1, h2] at hv
+  simp only [h0, h1, h2, if_false, decide_eq_true_eq] at hv
+  have hval : ConnLimitYaml.validate (some c) addrs = true := by
+    unfold ConnLimitYaml.validate
+    simp [he, h0, h1, h2, hv]
+  refine ⟨?_, ⟨by omega, by omega, h64⟩, by omega, hv⟩
+  show (if ConnLimitYaml.validate (some c) addrs = true then c.toInternal else Wired.rejected) = _
+  rw [hval]
+  simp [ConnLimitYaml.toInternal, he, newLimiter, h0, h2, init]
+
+/-- **wired_bound.**  The bound in terms of the configuration file: with an accepted, enabled
+section the number of open connections plus pending accepts never exceeds the configured `stop`,
+under every schedule. -/
+theorem wired_bound (c : ConnLimitYaml) (addrs : Nat) (he : c.enabled = true)
+    (hv : ConnLimitYaml.validate (some c) addrs = true) (h64 : c.stop < two64) (ops : List Op) :
+    count (run repaired (init c.stop c.resume) ops) ≤ c.stop :=
+  (bound c.stop c.resume (wired_limiter c addrs he hv h64).2.1 ops).2
+
+/-- **wired_never_panics / wired_off.**  No accepted section makes the conversion panic, and a
+disabled one limits nothing (nil limiter), whatever its numbers. -/
+theorem wired_never_panics (c : Option ConnLimitYaml) (addrs : Nat) :
+    ConnLimitYaml.wire c addrs ≠ .panic ∧
+    (∀ k, c = some k → k.enabled = false → ConnLimitYaml.wire c addrs = .off) := by
+  constructor
+  · cases c with
+    | none => simp [ConnLimitYaml.wire]
+    | some k =>
+      show (if ConnLimitYaml.validate (some k) addrs = true then k.toInternal else Wired.rejected) ≠ _
+      by_cases hv : ConnLimitYaml.validate (some k) addrs = true
+      · simp only [hv, if_true]
+        unfold ConnLimitYaml.validate at hv
+        unfold ConnLimitYaml.toInternal newLimiter
+        cases he : k.enabled
+        · simp
+        · simp only [he, Bool.not_true, Bool.false_eq_true, if_false] at hv ⊢
+          by_cases h0 : k.stop = 0
+          · simp [h0] at hv
+          by_cases h1 : k.resume = 0
+          · simp [h0, h1] at hv
+          by_cases h2 : k.resume > k.stop
+          · simp [h0, h1, h2] at hv
+          simp [h0, h2]
+      · simp [hv]
+  · intro k hk he
+    subst hk
+    simp [ConnLimitYaml.wire, ConnLimitYaml.validate, ConnLimitYaml.toInternal, he]
+
+/-- Non-vacuity: the shipped example (stop 1000, resume 800, 6 stream addresses) is accepted and
+wired; resume below the number of listeners, resume 0 and resume > stop are rejected. -/
+example : ConnLimitYaml.wire (some ⟨true, 1000, 800⟩) 6 = .on ⟨0, 1000, 800, true⟩ ∧
+    ConnLimitYaml.wire (some ⟨true, 4, 2⟩) 3 = .rejected ∧
+    ConnLimitYaml.wire (some ⟨true, 4, 0⟩) 0 = .rejected ∧
+    ConnLimitYaml.wire (some ⟨true, 2, 3⟩) 1 = .rejected ∧
+    ConnLimitYaml.wire (some ⟨false, 0, 7⟩) 9 = .off ∧
+    ConnLimitYaml.wire none 0 = .rejected := by decide
+
+/-- **wired_pipeline.**  With an accepted `ratelimit.tcp` section and `enabled: true`, every plain-DNS
+and every DoT server serves each of its stream connections with a semaphore of exactly the configured
+`max_pipeline_count` (at least one), so at most that many queries of one connection are processed at
+the same time under every order of arrivals, completions and give-ups; with `enabled: false` no
+semaphore is made.  Other protocols do not run the TCP message loop. -/
+theorem wired_pipeline (t : TcpYaml) (p : Proto) (hv : TcpYaml.validate (some t) = true)
+    (hp : p = .dns ∨ p = .dot) :
+    (t.enabled = true → p.wireTcp (some t) = .on t.count ∧ 0 < t.count ∧
+      ∀ ops, (Pipe.run (Pipe.init t.count) ops).running ≤ t.count) ∧
+    (t.enabled = false → p.wireTcp (some t) = .off) := by
+  have hpos : 0 < t.count := by simpa [TcpYaml.validate] using hv
+  constructor
+  · intro he
+    refine ⟨?_, hpos, fun ops => (pipeline_bound t.count ops).1⟩
+    rcases hp with rfl | rfl <;> simp [Proto.wireTcp, hv, Proto.tcpConf, he]
+  · intro he
+    rcases hp with rfl | rfl <;> simp [Proto.wireTcp, hv, Proto.tcpConf, he]
+
+example : Proto.wireTcp .dot (some ⟨true, 100⟩) = .on 100 ∧ Proto.wireTcp .dns (some ⟨false, 100⟩) = .off ∧
+    Proto.wireTcp .dns (some ⟨true, 0⟩) = .rejected ∧ Proto.wireTcp .dnscrypt (some ⟨true, 5⟩) = .off := by decide
+
 /-! ## The pinned tree before the repairs violates the property -/
 
 /-- S6: with `Signal` in `limitListener.decrement` (stop 3, resume 1) two acceptors wait on two
@@ -389,6 +484,10 @@ theorem closed_accept_leak_blocks_others :
 #print axioms saturated_sawtooth
 #print axioms pipeline_bound
 #print axioms pipeline_work_conserving
+#print axioms wired_limiter
+#print axioms wired_bound
+#print axioms wired_never_panics
+#print axioms wired_pipeline
 #print axioms stuck_waiter_counterexample
 #print axioms stuck_waiter_signal_only
 #print axioms closed_accept_leak_counterexample
